@@ -7428,9 +7428,10 @@ class FrameHE(Frame):
 
     def __hash__(self) -> int:
         if not hasattr(self, '_hash'):
+            # iterate labels rather than values: rows of the 2D values of a hierarchical index are not hashable
             self._hash = hash((
-                    tuple(self.index.values),
-                    tuple(self.columns.values),
+                    tuple(self._index),
+                    tuple(self._columns),
                     # tuple(dt.str for dt in self._blocks.dtypes)
                     ))
         return self._hash
